@@ -568,6 +568,12 @@ func c13run(args []string) error {
 						q.X.Add(q.X, p.Curve.Params().P)
 					case "yminusp":
 						q.Y.Sub(q.Y, p.Curve.Params().P)
+					case "p256point":
+						// a point of ANOTHER curve, presented with that curve in its Curve field (the NIST P-256 generator): the
+						// exchange is over the SM2 curve whatever the value says about itself, and this pair is not on it
+						q.Curve = elliptic.P256()
+						q.X.Set(elliptic.P256().Params().Gx)
+						q.Y.Set(elliptic.P256().Params().Gy)
 					}
 					return q
 				}
